@@ -2,7 +2,10 @@
    Theorems only; each is closed by [exact] of a lemma of Pure/UrlProofs.v,
    Sys/FilesGateProofs.v or Sys/FilesStoreProofs.v (or a one-line combination).
    Models: Pure/Url.v (media.GetIdFromUrl), Sys/Files.v (request gate of
-   largeFileServe / largeFileReceive, disposition rule, store slice of uploads, links, GC). *)
+   largeFileServe / largeFileReceive, disposition rule, store slice of uploads, links, GC).
+   The models follow /repo after the fix commits c986697 (failed FinishUpload answered, bytes
+   removed) and 560b667 (only completed uploads are served); the handlers as they were are kept
+   as [upload_gate_unrepaired] / [download_unrepaired] and refuted below. *)
 From Coq Require Import NArith ZArith List Bool.
 From Tinode Require Import Pure.Url Pure.UrlProofs Sys.Files Sys.FilesGateProofs Sys.FilesStoreProofs.
 Import ListNotations.
@@ -65,13 +68,75 @@ Theorem c16_methods :
 Proof. exact (conj serve_methods upload_methods). Qed.
 Print Assumptions c16_methods.
 
-(* a reply other than 200 has no effect; a request without effect leaves the store slice as it was *)
+(* A reply other than 200 has no effect: nothing is served, and nothing is stored unless the
+   STORE failed while the upload was being finalised (an injected fault, not a refusal; next
+   theorem).  A request without effect leaves the store slice as it was.  The upload handler
+   leaves no request unanswered except when no media handler is configured (no effect). *)
 Theorem c16_refused_no_effect :
   (forall r c e, serve_gate r = Reply c e -> c <> 200%Z -> e = ENone) /\
-  (forall r c e, upload_gate r = Reply c e -> c <> 200%Z -> e = ENone) /\
+  (forall r c e, upload_gate r = Reply c e -> c <> 200%Z -> u_fault r <> FFinish -> e = ENone) /\
+  (forall r c e, upload_gate r = Reply c e -> c <> 200%Z ->
+     e = ENone \/ (e = EResidueNoBytes /\ c = 500%Z /\ u_fault r = FFinish)) /\
+  (forall r e, upload_gate r = Crash e -> u_handler r = false /\ e = ENone) /\
   (forall s r fid now mime, effect_of (upload_gate r) = ENone -> fst (apply_upload s r fid now mime) = s).
-Proof. exact (conj serve_refused_no_effect (conj upload_refused_no_effect upload_refused_state)). Qed.
+Proof.
+  exact (conj serve_refused_no_effect (conj upload_refused_no_effect (conj upload_refused_effect
+        (conj upload_answered upload_refused_state)))).
+Qed.
 Print Assumptions c16_refused_no_effect.
+
+(* The failed upload (FinishUpload fails in the store; hdl_files.go:327-334 after c986697), in
+   the state reached by ANY history and for a fresh id: the reply is 500; what is left is ONE
+   record in status 'started'; its bytes are gone (the stored bytes are those of before); no
+   link, message, topic or user row changed; no URL serves anything it did not serve before;
+   the record has no link row, and the next GC run without a limit whose bound is past the
+   upload time removes it. *)
+Theorem c16_failed_upload_collectable : forall h r fid now mime c e,
+  let s := run h in
+  upload_gate r = Reply c e -> c <> 200%Z -> e <> ENone ->
+  memN fid (file_ids s) = false -> fid <> 0%N ->
+  let s' := fst (apply_upload s r fid now mime) in
+  let rec := {| f_id := fid; f_done := false; f_upd := now; f_mime := mime |} in
+  c = 500%Z /\ u_fault r = FFinish /\
+  files s' = files s ++ [rec] /\ disk s' = disk s /\ links s' = links s /\ msgs s' = msgs s /\
+  next_mid s' = next_mid s /\ topics s' = topics s /\ users s' = users s /\
+  (forall serve url, download s' serve url = download s serve url) /\
+  linked fid (links s') = false /\
+  (forall older limit, (limit <= 0)%Z -> gc_older_ok older rec = true ->
+     ~ In fid (file_ids (step s' (OGC older limit))) /\ ~ In fid (disk (step s' (OGC older limit)))).
+Proof. exact failed_upload_request. Qed.
+Print Assumptions c16_failed_upload_collectable.
+
+Definition c16_finish_fault_request : ureq :=
+  {| u_meth := MPost; u_key_hdr := Some KValid; u_key_query := None; u_key_form := None; u_key_cookie := None;
+     u_cred_xauth := Some (CGood 1); u_cred_authz := None; u_cred_query := None; u_cred_form := None; u_cred_cookie := None;
+     u_sid_query := None; u_sid_form := None; u_topic_query := None; u_topic_form := None;
+     u_handler := true; u_hdr := HdrStatus 0; u_limit := 4096; u_body := BForm 2000 true 1000; u_fault := FFinish |}.
+
+(* "every request that is not answered 200 leaves no trace": false when the store fails at
+   FinishUpload - the record cannot be removed from a failing store and is left to the GC (the
+   property text: failed uploads become collectable).  Kept and refuted; not a defect. *)
+Definition c16_failed_no_trace_statement : Prop :=
+  forall s r fid now mime c e,
+    upload_gate r = Reply c e -> c <> 200%Z -> fst (apply_upload s r fid now mime) = s.
+
+Theorem c16_failed_no_trace_refuted : ~ c16_failed_no_trace_statement.
+Proof.
+  intros H. specialize (H init c16_finish_fault_request 5%N 0%Z [] 500%Z EResidueNoBytes eq_refl).
+  assert (X : (500 <> 200)%Z) by discriminate. specialize (H X). vm_compute in H. discriminate.
+Qed.
+Print Assumptions c16_failed_no_trace_refuted.
+
+(* the upload handler as it was before c986697: the same request gets NO reply (panic on the
+   nil fdef) and record AND bytes stay *)
+Definition c16_upload_answered_unrepaired_statement : Prop :=
+  forall r e, upload_gate_unrepaired r = Crash e -> u_handler r = false /\ e = ENone.
+
+Theorem c16_upload_answered_unrepaired_refuted : ~ c16_upload_answered_unrepaired_statement.
+Proof.
+  intros H. destruct (H c16_finish_fault_request EResidue eq_refl) as [H1 _]. discriminate.
+Qed.
+Print Assumptions c16_upload_answered_unrepaired_refuted.
 
 (* a body above the configured size is never stored, and is answered 413 once it is looked at *)
 Theorem c16_size_limit : forall r total hf flen,
@@ -119,19 +184,60 @@ Theorem c16_download_names_record : forall s serve url f,
 Proof. exact download_names_record. Qed.
 Print Assumptions c16_download_names_record.
 
-(* "no URL can name anything other than a COMPLETED upload": refuted, Download never looks at
-   the status (finding c16-download-incomplete-upload) *)
-Definition c16_download_completed_statement : Prop :=
-  forall h serve url f, download (run h) serve url = Some f -> f_done f = true.
+(* "no URL - relative, absolute, with traversal segments or odd characters - can name anything
+   other than a completed upload": for EVERY state of the store slice, EVERY serve prefix and
+   EVERY byte string as URL, what Download serves is a record of the store in status
+   'completed', selected by the id the URL yields (c16_url_names_upload says which part of the
+   URL that is), with its bytes present.  (filesys.go:119, fix 560b667) *)
+Theorem c16_download_completed : forall s serve url f,
+  download s serve url = Some f ->
+  f_done f = true /\ is_done (f_id f) (files s) = true /\
+  get_id_from_url serve url = f_id f /\ f_id f <> 0%N /\ In f (files s) /\ In (f_id f) (disk s).
+Proof. exact download_completed. Qed.
+Print Assumptions c16_download_completed.
 
-Theorem c16_download_completed_refuted : ~ c16_download_completed_statement.
+(* a record that is not completed (upload running, failed, or abandoned) is invisible to every URL *)
+Theorem c16_download_started_none : forall s serve url,
+  is_done (get_id_from_url serve url) (files s) = false -> download s serve url = None.
+Proof. exact download_started_none. Qed.
+Print Assumptions c16_download_started_none.
+
+(* over ALL histories: what a download serves was uploaded (StartUpload with the content type
+   the record carries - the detected type) and completed (FinishUpload ok) in that history *)
+Theorem c16_download_provenance : forall h serve url f,
+  download (run h) serve url = Some f ->
+  (exists t0, In (OStart (f_id f) t0 (f_mime f)) h) /\ In (OFinish (f_id f) true (f_upd f)) h.
+Proof. exact download_provenance. Qed.
+Print Assumptions c16_download_provenance.
+
+(* the download request as a whole (gate of largeFileServe + fs Download), every state, every
+   request, every URL: bytes are sent only by a 200 reply to a GET with a valid API key and a
+   non-zero authenticated uid, and they are the bytes of the completed upload the URL names;
+   otherwise the request has no effect *)
+Theorem c16_served_only_completed :
+  (forall s r serve url o f,
+     serve_request s r serve url = (o, Some f) ->
+     o = Reply 200 EServed /\ s_meth r = MGet /\ first_some (s_keys r) = Some KValid /\
+     (exists u, auth_of (s_creds r) (s_sid r) = AuthUid u /\ u <> 0%N) /\
+     download s serve url = Some f /\
+     f_done f = true /\ In f (files s) /\ get_id_from_url serve url = f_id f /\ In (f_id f) (disk s)) /\
+  (forall s r serve url o, serve_request s r serve url = (o, None) -> effect_of o = ENone).
+Proof. exact (conj serve_request_served serve_request_nothing). Qed.
+Print Assumptions c16_served_only_completed.
+
+(* Download as it was before 560b667 (no status test): refuted, an upload that was started and
+   never completed is served *)
+Definition c16_download_completed_unrepaired_statement : Prop :=
+  forall h serve url f, download_unrepaired (run h) serve url = Some f -> f_done f = true.
+
+Theorem c16_download_completed_unrepaired_refuted : ~ c16_download_completed_unrepaired_statement.
 Proof.
   intros H.
   pose (name := [86;102;51;107;81;57;95;45;97;90;48]%N).
   specialize (H [OStart (parse_uid name) 0 []] [] name).
   vm_compute in H. specialize (H _ eq_refl). discriminate.
 Qed.
-Print Assumptions c16_download_completed_refuted.
+Print Assumptions c16_download_completed_unrepaired_refuted.
 
 (* ------------------------------------------------------------------ *)
 (* disposition                                                          *)
@@ -172,17 +278,75 @@ Proof.
 Qed.
 Print Assumptions c16_gc_exact.
 
-(* in every reachable state the stored bytes are exactly those of the upload records, every link
-   points to an existing record and an existing message / topic / user *)
+(* in every reachable state: ids are unique, stored bytes belong to upload records, every
+   COMPLETED upload has its bytes (a record in status 'started' may have lost them: failed
+   FinishUpload), every link points to an existing record and an existing message / topic / user *)
 Theorem c16_store_consistent : forall h,
   let s := run h in
   NoDup (file_ids s) /\
-  (forall d, In d (disk s) <-> In d (file_ids s)) /\
+  (forall d, In d (disk s) -> In d (file_ids s)) /\
+  (forall f, is_done f (files s) = true -> In f (disk s)) /\
   (forall f t, In (f, t) (links s) -> In f (file_ids s) /\ target_live s t = true).
 Proof.
-  intros h. destruct (inv_run h) as [H1 [H2 [_ [H4 _]]]]. exact (conj H1 (conj H2 H4)).
+  intros h. destruct (inv_run h) as [H1 [[H2 H3] [_ [H4 _]]]]. exact (conj H1 (conj H2 (conj H3 H4))).
 Qed.
 Print Assumptions c16_store_consistent.
+
+(* "uploads that were never linked, failed, or lost their last link become collectable ... and
+   are then removed together with their stored bytes": after ANY history, a record without a link
+   row - whatever its status - is removed with its bytes by the next GC run without a limit whose
+   bound is past the record's time *)
+Theorem c16_unreferenced_collected : forall h f older limit,
+  let s := run h in
+  In f (files s) -> linked (f_id f) (links s) = false -> gc_older_ok older f = true -> (limit <= 0)%Z ->
+  ~ In (f_id f) (file_ids (step s (OGC older limit))) /\ ~ In (f_id f) (disk (step s (OGC older limit))).
+Proof. exact unreferenced_collected_run. Qed.
+Print Assumptions c16_unreferenced_collected.
+
+(* "and nothing else is removed": after ANY history, whatever the next operation is, an upload
+   record disappears only in a GC run that selected it (no link row, older than the bound) or -
+   if it was still in status 'started' - through FinishUpload(failed); stored bytes disappear only
+   with a GC-selected record, or for an upload that is not completed (failed copy / failed
+   FinishUpload).  In particular a completed upload and its bytes go only through the GC, unlinked. *)
+Theorem c16_nothing_else_removed : forall h o,
+  let s := run h in
+  (forall f, In f (files s) -> ~ In (f_id f) (file_ids (step s o)) ->
+     (exists older limit, o = OGC older limit /\ In f (gc_removed s older limit) /\
+        linked (f_id f) (links s) = false /\ gc_older_ok older f = true) \/
+     (exists now, o = OFinish (f_id f) false now /\ f_done f = false)) /\
+  (forall d, In d (disk s) -> ~ In d (disk (step s o)) ->
+     (exists older limit, o = OGC older limit /\ In d (gc_deleted_locations s older limit)) \/
+     (exists now, o = OFinish d false now /\ is_done d (files s) = false) \/
+     (o = ODropBytes d /\ is_done d (files s) = false)).
+Proof.
+  intros h o. exact (conj (record_removed_only_by_run h o) (bytes_removed_only_by (run h) o)).
+Qed.
+Print Assumptions c16_nothing_else_removed.
+
+(* "never garbage-collected while it exists", as a one-step invariant over ALL histories: in the
+   state reached by any history, a completed upload that has at least one link row is still a
+   record, with its bytes, after ANY next operation (GC run with any bound and limit, upload,
+   failed upload, publish, avatar change, deletion) *)
+Theorem c16_linked_never_removed : forall h o f t,
+  let s := run h in
+  In (f, t) (links s) -> is_done f (files s) = true ->
+  In f (file_ids (step s o)) /\ In f (disk (step s o)).
+Proof. exact linked_never_removed. Qed.
+Print Assumptions c16_linked_never_removed.
+
+(* deleting messages / a topic / a user removes exactly their link rows (so that uploads whose
+   last link this was become collectable, previous theorem) and touches no record and no bytes *)
+Theorem c16_deletion_unlinks : forall s,
+  (forall mids f m, In m mids -> ~ In (f, TMsg m) (links (step s (ODelMsgs mids)))) /\
+  (forall t f, ~ In (f, TTopic t) (links (step s (ODelTopic t))) /\
+     forall m, msg_topic m (msgs s) = Some t -> ~ In (f, TMsg m) (links (step s (ODelTopic t)))) /\
+  (forall u f, ~ In (f, TUser u) (links (step s (ODelUser u)))) /\
+  (forall o, match o with ODelMsgs _ | ODelTopic _ | ODelUser _ => True | _ => False end ->
+     files (step s o) = files s /\ disk (step s o) = disk s).
+Proof.
+  intros s. exact (conj (del_msgs_unlinks s) (conj (del_topic_unlinks s) (conj (del_user_unlinks s) (deletions_keep_files s)))).
+Qed.
+Print Assumptions c16_deletion_unlinks.
 
 (* ------------------------------------------------------------------ *)
 (* kept while referenced                                                *)
@@ -203,6 +367,25 @@ Theorem c16_linked_while_referenced : forall h1 topic fids h2 f,
   In (f, TMsg mid) (links s2) /\ In f (file_ids s2) /\ In f (disk s2) /\ is_done f (files s2) = true.
 Proof. exact linked_msg. Qed.
 Print Assumptions c16_linked_while_referenced.
+
+(* the same, end to end from the URLs of the {pub} request (Pure/Url.v and the store slice
+   together): under the same scope, a listed URL that names a completed upload keeps its link row,
+   its record and its bytes, and Download of that very URL keeps serving that upload, for as long
+   as the message exists - whatever else happens *)
+Theorem c16_listed_url_kept_downloadable : forall h1 serve topic urls h2 url,
+  let s1 := run h1 in
+  let fids := resolve serve urls in
+  memN topic (topics s1) = true ->
+  forallb (fun x => memN x (file_ids s1)) fids = true ->
+  In url urls -> is_done (get_id_from_url serve url) (files s1) = true ->
+  let mid := next_mid s1 in
+  let s2 := run (h1 ++ OPublish topic fids :: h2) in
+  target_live s2 (TMsg mid) = true ->
+  let f := get_id_from_url serve url in
+  In (f, TMsg mid) (links s2) /\ In f (file_ids s2) /\ In f (disk s2) /\
+  exists g, download s2 serve url = Some g /\ f_id g = f /\ f_done g = true.
+Proof. exact listed_url_linked. Qed.
+Print Assumptions c16_listed_url_kept_downloadable.
 
 (* avatars: the first resolvable id of the list, until the topic / user is deleted or its
    avatar is replaced *)
@@ -259,6 +442,13 @@ Example c16_ex_upload_ok :
      u_handler := true; u_hdr := HdrStatus 0; u_limit := 4096; u_body := BForm 4096 true 3000; u_fault := FNone |}
   = Reply 200 EStored.
 Proof. reflexivity. Qed.
+
+Example c16_ex_finish_fault :
+  upload_gate c16_finish_fault_request = Reply 500 EResidueNoBytes /\
+  upload_gate_unrepaired c16_finish_fault_request = Crash EResidue /\
+  (let s := fst (apply_upload init c16_finish_fault_request 5 0 []) in
+   file_ids s = [5%N] /\ disk s = [] /\ file_ids (step s (OGC (Some 1%Z) 0)) = []).
+Proof. vm_compute. repeat split. Qed.
 
 Example c16_ex_form_key_over_limit :
   (* the API key travels in the form and the body is over the limit: the form cannot be read, 403 *)
